@@ -14,7 +14,7 @@ U(F, Ls, N, Q, D) == [F |-> F, L |-> Ls, N |-> N, Q |-> Q, D |-> D]
 NoReq == {<<0, 0, 0, 0>>}
 
 CfgQuick == {Cfg(0, 1, 1, 1), Cfg(2, 1, 1, 1), Cfg(1, 0, 1, 1), Cfg(1, 2, 1, 1),
-             Cfg(1, 1, 0, 1), Cfg(1, 1, 2, 1), Cfg(1, 1, 1, 0), Cfg(1, 1, 1, 2)}
+             Cfg(1, 1, 0, 1), Cfg(1, 1, 2, 1), Cfg(1, 1, 1, 0), Cfg(1, 2, 1, 2)}
 CfgDeep == CfgQuick \cup {Cfg(3, 1, 1, 1), Cfg(4, 1, 1, 1), Cfg(1, 3, 1, 1), Cfg(1, 4, 1, 0),
                           Cfg(1, 1, 3, 1), Cfg(1, 1, 4, 1), Cfg(1, 1, 1, 4), Cfg(2, 2, 2, 1)}
 CfgFault == {Cfg(1, 1, 2, 1)}
@@ -26,6 +26,6 @@ MCUniv(c) ==
                             {<<0, 0, 0, 0>>, <<2, 0, 0, 0>>, <<0, 2, 0, 0>>, <<0, 0, Eff(c.nq) + 1, 0>>,
                              <<0, 0, 0, 2>>, <<1, 1, Eff(c.nq), 1>>, <<2, 2, 0, 2>>}, {1})
     ELSE IF c.idmax # 1 THEN U({1}, 1..Eff(c.lq), {1}, NoReq, 0..(c.idmax + 1))                      \* ids
-    ELSE U({1}, 1..(Eff(c.lq) + 1), {1}, NoReq, {1})                                                 \* listeners
+    ELSE U({1}, 1..(Eff(c.lq) + 1), {1}, NoReq, {0, 1})                                              \* listeners
 FaultUniv(c) == U({1, 2}, {1, 2}, {1, 2}, NoReq, {0, 1, 2})
 =============================================================================
